@@ -193,7 +193,10 @@ class Campaign:
         thms = common.property_theorems(self.prop)
         # only the sources this property depends on (another contributor's work in progress must not
         # turn this check into an infrastructure error; `sorryAx` would show up in the axiom audit anyway)
-        bad = [h for h in common.lean_forbidden_tokens() if h.split(":")[0] in LEAN_SOURCES]
+        try:
+            bad = common.lean_forbidden_tokens([f"Properties.{self.prop}", "Driver.MeasMain"])
+        except TypeError:       # older common.py: scans every file
+            bad = [h for h in common.lean_forbidden_tokens() if h.split(":")[0] in LEAN_SOURCES]
         if bad:
             raise InfraError("forbidden tokens in Lean sources: " + "; ".join(bad[:5]))
         axioms = common.audit_axioms(f"Properties.{self.prop}", thms) if thms else {}
